@@ -1,7 +1,10 @@
 import Tahoe.Base.DrvUtil
 import Tahoe.Mutable.Authentic
 /-! Driver for C10: `fd <cold|warm> <field>` → `accept` | `reject`: the reader's decision on a single
-share in which exactly the named field was altered (field names as in `Tahoe.Authentic.Field`). -/
+share in which exactly the named field was altered (field names as in `Tahoe.Authentic.Field`).
+`rt <seed family|-> ev…` with ev = o:<shnum>:<fam> | d:<shnum>:<fam>:<id> | x:<shnum> → `<a|r per event> | <root>`:
+one Retrieve's share hash tree (seeded with the root of the given family, or unseeded) fed a sequence
+of shares; root = fam:<f> | junk | none. -/
 open Tahoe.Drv Tahoe.Authentic
 
 def parseField : String → Option Field
@@ -12,7 +15,26 @@ def parseField : String → Option Field
   | "enc_privkey" => some .encPrivkey
   | _ => none
 
+def parseEv (t : String) : Option Toy.Ev :=
+  match t.splitOn ":" with
+  | ["o", i, f] => do pure (.offer (← i.toNat?) (← f.toNat?))
+  | ["d", i, f, id] => do pure (.damaged (← i.toNat?) (← f.toNat?) (← id.toNat?))
+  | ["x", i] => do pure (.fail (← i.toNat?))
+  | _ => none
+
+def showRoot : Option Toy.TH → String
+  | none => "none"
+  | some (.fam f) => s!"fam:{f}"
+  | some _ => "junk"
+
 def handle : List String → String
+  | "rt" :: seed :: evs =>
+    match (if seed == "-" then some none else seed.toNat?.map some), evs.mapM parseEv with
+    | some sd, some l =>
+      let (acc, r) := Toy.run sd l
+      let a := String.join (acc.map (fun b => if b then "a" else "r"))
+      s!"{if a.isEmpty then "-" else a} | {showRoot r.tree}"
+    | _, _ => "bad-op"
   | ["fd", w, f] =>
     match (if w == "cold" then some false else if w == "warm" then some true else none), parseField f with
     | some warm, some fld => if fieldDecision warm fld then "accept" else "reject"
